@@ -122,9 +122,10 @@ def gen_steps(rng, specs, nclients, n, client_ops=True, late_start=False, snoope
                     else:
                         val = rng.choice(["On", "Off"])
                     pairs.append([e["name"], val])
-                if pairs and v["kind"] == "Number" and len(pairs) >= 2 and rng.random() < 0.25:
+                if pairs and v["kind"] == "Number" and rng.random() < (0.25 if len(pairs) >= 2 else 0.4):
                     # one element of a multi-element write carries a number text the property's format cannot take
-                    # (legal for the client API, unusable for the driver): the rest of the write must still converge
+                    # (legal for the client API, unusable for the driver): the rest of the write must still converge; when it is
+                    # the only element the driver applies nothing and answers nothing - the client's view must not move either
                     k = rng.randrange(len(pairs))
                     e = [x for x in v["elements"].values() if x["name"] == pairs[k][0]][0]
                     pairs[k][1] = "12.5" if V.is_sexa(e["format"]) else "1:30"
